@@ -545,6 +545,9 @@ def judge_transition(ctx, mon, before, before_finite, new_state, stats, scn):
         if hval is not None and (math.isnan(hval) or hval == math.inf):
             ctx.violations.append(violation("moved-to-invalid-candidate", f"moved-to-invalid-candidate:{scn['transition']['type']}",
                                             f"chain moved to a state whose Hamiltonian evaluated to {hval}"))
+    if stats.get("n_step") != len(mon.outputs):
+        ctx.violations.append(violation("n-step", f"n-step:{scn['transition']['type']}",
+                                        f"transition reports n_step={stats.get('n_step')} but {len(mon.outputs)} integrator steps succeeded (errors: {mon.errors})"))
     want = {
         "convergence_error": any(e == "ConvergenceError" for e in mon.errors),
         "non_reversible_step": any(e == "NonReversibleStepError" for e in mon.errors),
